@@ -11,7 +11,7 @@ RULE = ("Pool-machine histories with overcommit on, 2-8 concurrent containers wi
         "tick with >= 3 eligible containers whose usage order differs from score order, or >= 2 victims in one tick; "
         "distinct = sha1 of the case JSON")
 ASSUMPTIONS = ["pool demand within 1e-6 GB of capacity: kill or no kill both accepted; score ties: any order accepted"]
-FLOORS = {"capacity_crossed": 0.1, "pool_level_kill": 0.1, "two_victims_one_tick": 0.01,
+FLOORS = {"crossing_with_tie": 20, "usage_exactly_at_capacity": 20, "capacity_crossed": 0.1, "pool_level_kill": 0.1, "two_victims_one_tick": 0.01,
           "crossing_3plus_usage_order_ne_score_order": 0.01}
 
 
